@@ -2,9 +2,10 @@ from . import COMMON_TB, NOTE
 
 PROP = {
     "modules": ["Proofs.C08"],
-    "streams": [{"name": "eparse"}],
+    "streams": [{"name": "eparse"}, {"name": "render"}],
     "rule": "eparse: exhaustive token soups of length<=3/4 over 23 lexemes, grammar-generated expressions and statements "
-            "with random spacing, mutants and random soups; non-trivial = accepted by the real parser; distinct by case line",
+            "with random spacing, mutants and random soups; render: harvested test templates and grammar-generated templates "
+            "with generated environments, through ParseTemplateLocation+Render; non-trivial = accepted / non-empty output",
     "trusted_base": COMMON_TB + ["the ragel/goyacc generated tables are not translated: the recursive-descent model is compared with them on every run"],
     "assumptions": [],
 }
